@@ -19,10 +19,11 @@ class Script:
 
 class FakePort:
     """write / readline consume one script event each; ('L', text) = that line, 'E' = nothing arrives / write ok, 'F' = SerialException"""
-    def __init__(self, script):
+    def __init__(self, script, close_raises=False):
         self.script = script
         self.writes = []
         self.closed = False
+        self.close_raises = close_raises
     def write(self, data):
         ev = self.script.next()
         if ev == "F":
@@ -38,14 +39,16 @@ class FakePort:
         return ev[1].encode("ascii") + b"\r\n"
     def close(self):
         self.closed = True
+        if self.close_raises:               # a device that has dropped off the bus: the close itself fails (no script event is consumed)
+            raise serial.SerialException("injected fault on close")
     def reset_input_buffer(self):
         pass
     def flushInput(self):
         pass
 
-def install(script, ports):
+def install(script, ports, close_raises=False):
     """rebind comports and serial.Serial as seen by ebb3_serial; returns the shared FakePort"""
-    fp = FakePort(script)
+    fp = FakePort(script, close_raises)
     def fake_serial(name, timeout=None):
         ev = script.next()
         if ev == "F":
@@ -156,10 +159,10 @@ def coq_script(events):
     return clist([coq_event(e) for e in events])
 
 # ------------------------------------------------------------------ running a history
-def run_history(calls, events):
+def run_history(calls, events, close_raises=False):
     """fresh EBBMotionWrap, one script for the whole history; returns a list of observation dicts"""
     script = Script(events)
-    fp = install(script, [])
+    fp = install(script, [], close_raises)
     obj = ebb3_motion.EBBMotionWrap()
     out = []
     try:
